@@ -21,21 +21,54 @@ import numpy as np
 
 from harness import core
 from harness.core import Prop, outcome
+from harness.effects import observe
 from harness.effects import translate as T
+from harness.effects.tests import run as REG
 
-# documented mutators (and methods whose purpose is to change their own object's state):
-# (qualified name, parameter) pairs that MAY be written
+# (qualified name, parameter) pairs the STATIC half may report as possibly written, each with its kind and reason.
+#   kind "mutator": named by the property text ("a laser's own add/remove/rename and the in-place shuffle mode acting on its
+#                   image argument"): the dynamic half accepts any change of that argument too.
+#   kind "setter":  NOT named by the property text.  The property protects "any array, list or dictionary passed"; these
+#                   methods assign attributes of their receiver (a Calibration / SRRConfig object) to NEW arrays / numbers,
+#                   which the static analysis, having one region per argument, reports as may-write(self).  No array, list
+#                   or dict reachable from the receiver when the call starts is modified in place; the dynamic half checks
+#                   exactly that on every call (identity-based content snapshots of every array / list / dict / set
+#                   reachable from every argument, `observe.inner_snapshot`), so a setter that wrote INTO the previous
+#                   `_points` array, say, is reported.  Only the rebinding of the receiver's own attributes is accepted.
 ALLOWED_WRITES = {
-    ("pewlib.laser.Laser.add", "self"), ("pewlib.laser.Laser.remove", "self"), ("pewlib.laser.Laser.rename", "self"),
-    ("pewlib.srr.srr.SRRLaser.add", "self"), ("pewlib.srr.srr.SRRLaser.remove", "self"),
-    ("pewlib.srr.srr.SRRLaser.rename", "self"),
-    ("pewlib.process.calc.shuffle_blocks", "x"),  # mode="inplace" acts on its image argument
-    # object-state setters: they change their own Calibration / SRRConfig object, no caller-owned array, list or dict
-    ("pewlib.calibration.Calibration.points.setter", "self"), ("pewlib.calibration.Calibration.weights.setter", "self"),
-    ("pewlib.calibration.Calibration.update_linreg", "self"),
-    ("pewlib.srr.config.SRRConfig.warmup.setter", "self"), ("pewlib.srr.config.SRRConfig.subpixel_offsets.setter", "self"),
-    ("pewlib.srr.config.SRRConfig.set_equal_subpixel_offsets", "self"),
+    ("pewlib.laser.Laser.add", "self"): ("mutator", "documented mutator: a laser's own add"),
+    ("pewlib.laser.Laser.remove", "self"): ("mutator", "documented mutator: a laser's own remove"),
+    ("pewlib.laser.Laser.rename", "self"): ("mutator", "documented mutator: a laser's own rename"),
+    ("pewlib.srr.srr.SRRLaser.add", "self"): ("mutator", "documented mutator: a laser's own add (SRR laser)"),
+    ("pewlib.srr.srr.SRRLaser.remove", "self"): ("mutator", "documented mutator: a laser's own remove (SRR laser)"),
+    ("pewlib.srr.srr.SRRLaser.rename", "self"): ("mutator", "documented mutator: a laser's own rename (SRR laser)"),
+    ("pewlib.process.calc.shuffle_blocks", "x"): ("mutator", "documented mutator: mode='inplace' acts on its image argument"),
+    ("pewlib.calibration.Calibration.points.setter", "self"):
+        ("setter", "`cal.points = p` binds self._points to a new array (np.array copy / stack) and refits: attribute rebinding only"),
+    ("pewlib.calibration.Calibration.weights.setter", "self"):
+        ("setter", "`cal.weights = w` binds self._weights / self._weighting to new values: attribute rebinding only"),
+    ("pewlib.calibration.Calibration.update_linreg", "self"):
+        ("setter", "stores the fit results (gradient, intercept, rsq, error: numbers) in its own object: attribute rebinding only"),
+    ("pewlib.srr.config.SRRConfig.warmup.setter", "self"):
+        ("setter", "`cfg.warmup = s` binds self._warmup to a new integer: attribute rebinding only"),
+    ("pewlib.srr.config.SRRConfig.subpixel_offsets.setter", "self"):
+        ("setter", "binds self._subpixel_size / self._subpixel_offsets to newly computed arrays: attribute rebinding only"),
+    ("pewlib.srr.config.SRRConfig.set_equal_subpixel_offsets", "self"):
+        ("setter", "binds self._subpixel_offsets / self._subpixel_size to new values: attribute rebinding only"),
 }
+
+
+def dyn_write_allowed(name, param):
+    """the dynamic half accepts an observed change of (the attribute bindings of) this argument"""
+    return (name, param) in ALLOWED_WRITES
+
+
+def dyn_inner_write_allowed(name, param):
+    """... and of the arrays / lists / dicts that were reachable from it when the call started: documented mutators only"""
+    e = ALLOWED_WRITES.get((name, param))
+    return e is not None and e[0] == "mutator"
+
+
 # reviewed baseline of results that may share memory with / hold references to an argument: views by
 # documentation (view_as_blocks, Laser.get of one element, in-place shuffle), the identity shortcut of
 # calibrate, weights_from_weighting(safe=False, "x"), objects that keep what they were constructed from,
@@ -97,62 +130,8 @@ def alias_allowed(name, param, kind):
 GETTERS = {"x", "y", "points", "weights", "get_pixel_width", "get_pixel_height"}
 
 
-# ----------------------------------------------------------------------------- snapshots
-def snap(o, depth=0):
-    if depth > 6:
-        return "..."
-    if isinstance(o, np.ndarray):
-        return ("nd", str(o.dtype), o.shape, o.tobytes())
-    if isinstance(o, (list, tuple)):
-        return (type(o).__name__, [snap(x, depth + 1) for x in o])
-    if isinstance(o, dict):
-        return ("dict", [(snap(k, depth + 1), snap(v, depth + 1)) for k, v in o.items()])
-    if isinstance(o, (str, bytes, int, float, bool, type(None), Path, np.generic)):
-        return ("s", repr(o))
-    if isinstance(o, (ElementTree.Element, ElementTree.ElementTree)):
-        root = o.getroot() if isinstance(o, ElementTree.ElementTree) else o
-        return ("xml", ElementTree.tostring(root) if root is not None else b"")
-    if inspect.isroutine(o) or inspect.isclass(o):
-        return ("o", repr(o))
-    if hasattr(o, "__dict__"):
-        return (type(o).__name__, [(k, snap(v, depth + 1)) for k, v in sorted(vars(o).items())])
-    return ("o", repr(o))
-
-
-def arrays_of(o, depth=0, out=None):
-    out = [] if out is None else out
-    if depth > 6:
-        return out
-    if isinstance(o, np.ndarray):
-        out.append(o)
-    elif isinstance(o, (list, tuple)):
-        for x in o:
-            arrays_of(x, depth + 1, out)
-    elif isinstance(o, dict):
-        for v in o.values():
-            arrays_of(v, depth + 1, out)
-    elif hasattr(o, "__dict__") and not inspect.isclass(o) and not inspect.ismodule(o):
-        for v in vars(o).values():
-            arrays_of(v, depth + 1, out)
-    return out
-
-
-def containers_of(o, depth=0, out=None):
-    """mutable containers (lists, dicts) reachable from o, by identity"""
-    out = [] if out is None else out
-    if depth > 4:
-        return out
-    if isinstance(o, (list, dict)):
-        out.append(o)
-        for x in (o.values() if isinstance(o, dict) else o):
-            containers_of(x, depth + 1, out)
-    elif isinstance(o, tuple):
-        for x in o:
-            containers_of(x, depth + 1, out)
-    elif hasattr(o, "__dict__") and not inspect.isclass(o) and not inspect.ismodule(o):
-        for v in vars(o).values():
-            containers_of(v, depth + 1, out)
-    return out
+# ----------------------------------------------------------------------------- observation (harness/effects/observe.py)
+snap = observe.snap
 
 
 # ----------------------------------------------------------------------------- argument factories
@@ -771,46 +750,103 @@ class C19(Prop):
     id = "C19"
     anchored = ["src/pewlib/" + m.split("pewlib.")[1].replace(".", "/") + ".py" for m in T.INVENTORY_MODULES]
     cases = {"quick": 500, "thorough": 6000}
-    rule = ("one targeted case per inventoried public function/method (static obligation for every parameter + one dynamic call), "
-            "24 (thorough: 149) more for every function with a pair in UNPROVED_STATIC (dynamic-only pairs), "
-            "then random (function, argument seed) pairs; non-trivial = the call actually ran pewlib code with at least one "
-            "array/list/dict/object argument; distinct by (function, argument seed)")
-    trusted = ["harness/effects/translate.py (Python AST -> effect IR) and its tables of NumPy/stdlib calls returning fresh memory, "
-               "views, or writing an argument; `.copy()` is assumed to be ndarray.copy; duck-typed method calls are resolved by name "
-               "over pewlib's own classes; a parameter and everything reachable from it is one region (own/reach split)",
-               "translator, typing: annotations are trusted where they name an ndarray/scalar/str, a builtin container, an "
-               "ElementTree Element/ElementTree, a pewlib class (parameters, results of inlined functions, `self.f = <annotated "
-               "__init__ parameter>` when nothing else in the program assigns an attribute `f`) or `list[<pewlib class>]`: method and "
-               "property lookups on such values use that class hierarchy (with subclass overrides) instead of the name tables; "
-               "objects returned by ElementTree.parse/fromstring are fresh, their find/findall/iter/iterfind/getroot return parts, "
+    rule = ("targeted: every translator regression case (harness/effects/tests: synthetic source -> real translator -> real Lean "
+            "analysis, plus a real run of the synthetic function); one case per inventoried public function/method (static "
+            "obligation for every parameter + one dynamic call); 4 (thorough: 24) calls with overlapping / identical array "
+            "arguments for every function with two ndarray parameters; 24 (thorough: 149) more for every function with a pair in "
+            "UNPROVED_STATIC (dynamic-only pairs); then random (function, argument seed) pairs, 15% of those that can with "
+            "overlapping arguments; non-trivial = the call actually ran pewlib code with at least one array/list/dict/object "
+            "argument; distinct by (function, argument seed)")
+    trusted = ["harness/effects/translate.py (Python AST -> effect IR with a heap) and its tables of NumPy/stdlib calls returning "
+               "fresh memory, views, or writing an argument (reviewed against the installed NumPy; positional `out` parameters "
+               "are read from the installed library's ufunc arity / signatures); FAIL-CLOSED RULE: whatever is not in a table is "
+               "an unknown call (everything reachable from its arguments and from the callee object may be written, stored into "
+               "each other, returned), a construct that cannot be expressed (global/nonlocal, reflection, class definitions in "
+               "functions, special methods of pewlib classes other than __init__/__str__/__repr__/__format__/__getitem__/"
+               "__setitem__) makes the whole function unknown, and an IR variable the translator would read before binding it "
+               "is bound to `unknown`; duck-typed method calls are resolved by name over pewlib's own classes and the builtin / "
+               "NumPy method tables; a parameter and everything reachable from it when the call starts is one region",
+               "translator, typing: annotations of parameters are trusted where they name an ndarray/scalar/str/Path (`arr`: holds "
+               "no references, so a subscript store keeps none and `.copy()` is a deep copy), a builtin container (of such), an "
+               "ElementTree Element/ElementTree, a pewlib class or `list[<pewlib class>]`; every dynamic call asserts them on the "
+               "arguments it builds (isinstance, non-object dtype, item types).  Attributes of pewlib objects are typed plain "
+               "(or list of plain) when EVERY store site of that attribute that can affect the class stores such a value "
+               "(greatest fixpoint over the store sites, each judged by the translator in its own function; "
+               "evidence: fields_typed_plain); sound for objects that only pewlib's code builds and modifies, asserted on every "
+               "pewlib object reachable from the arguments.  Method / property lookups on typed values use that class hierarchy "
+               "(with subclass overrides; `cls(...)` in a classmethod is a branch over the subclasses' constructors).  "
+               "ElementTree.parse/fromstring results are fresh, find/findall/iter/iterfind/getroot return parts, "
                "findtext/itertext/get/keys/items/tag/text/tail return str; compiled-pattern match/search/fullmatch are pure; "
-               "Executor.submit(f, *a) is the call f(*a); sorted/min/max/list.sort(key=f) and map/filter(f, xs) apply f to the items "
-               "(lambdas are translated in place with their parameter bound to the items, anywhere else with an unknown argument; "
-               "their free variables are read when the lambda is created); a name bound only to pewlib functions, or a pewlib function "
-               "passed by name to an inlined callee, is called as a branch over those functions; a call of any other function-valued "
-               "parameter is an unknown call; str()/f-strings run __str__ only for values of a known pewlib class",
-               "the theorems are about the IR semantics (Pew.Effects.Exec); fidelity of the translation is validated only by the "
-               "dynamic snapshot run: every observed write / memory sharing must have been predicted by the analysis"]
+               "Executor.submit(f, *a) / Executor.map(f, xs) call f; sorted/min/max/list.sort(key=f), map/filter(f, xs) apply f to "
+               "the items; a name bound only to pewlib functions / local functions / lambdas (or such a function passed by name "
+               "to an inlined callee) is called as a branch over them; every other function value is an object holding its "
+               "free variables and calling it is an unknown call; str()/f-strings run the __str__/__repr__/__format__ of "
+               "pewlib classes (by type, else by name), not followed further inside a __str__",
+               "the theorems are about the IR semantics (Pew.Effects.Exec) from the start state `Start`: the parameters are "
+               "distinct regions with no references between them, nothing allocated, empty heap (module-level state left by "
+               "earlier calls is not part of it).  Calls that `Start` excludes (the same array passed twice, overlapping "
+               "views) are made by the dynamic half (feature overlapping-array-arguments), where the property itself is still "
+               "checked and a prediction for one member of an overlap group counts for the group.  Fidelity of the "
+               "translation is validated by the regression cases and by the dynamic snapshot run: every observed write / "
+               "sharing must have been predicted by the analysis"]
     assumptions = ["writes performed inside C extensions on buffers the table calls fresh are not visible",
                    "UNPROVED_STATIC in harness/c19.py lists the (function, parameter) pairs that rest on the dynamic calls alone "
                    "(user callbacks, an open file handle's position, results holding the caller's immutable Path/tuple objects, "
                    "boolean-mask indexing); they are not counted as static obligations and permit nothing at run time",
                    "pewlib.io.csv.load is called with an in-process stand-in for ProcessPoolExecutor, so that what a reader task "
                    "does to its arguments is observable",
-                   "ALLOWED_WRITES / ALIAS_BASELINE in harness/c19.py are the documented mutators and the reviewed alias baseline"]
+                   "ALLOWED_WRITES in harness/c19.py (evidence: allowed_writes, one reason per entry): the documented mutators of "
+                   "the property text, and six object-state setters whose static may-write(self) is accepted while the dynamic "
+                   "half still requires every array/list/dict reachable from their arguments to be unchanged (identity-based "
+                   "content snapshots); ALIAS_BASELINE is the reviewed alias baseline",
+                   "mappings are plain dicts (no __missing__ that inserts on lookup); reading from an open file is not a write "
+                   "(its position is not an array, list or dict); context managers do not swallow exceptions; callbacks and "
+                   "unresolved callees do not replace attributes of pewlib objects by values of another type"]
 
     def __init__(self):
         self._inv = None
 
     def inv(self):
+        """the regenerated model: translated once per run (workers read the per-run copy of the main process)"""
         if self._inv is None:
-            res = T.translate_all(core.REPO)
+            import json
+            import os
+
+            base = os.environ.get("PEWVERIF_TMPBASE")
+            cache = Path(base) / "c19-inventory.json" if base and os.path.isdir(base) else None
+            if cache is not None and cache.exists():
+                self._inv = json.loads(cache.read_text())
+                return self._inv
             prog = T.Program(core.REPO, T.INVENTORY_MODULES)
-            sigs = {}
+            tr = T.Translator(prog)
+            tr.infer_plain_fields()
+            inv = {}
             for q, mod, fn, ck, ctor in T.inventory(prog):
-                sigs[q] = {n: a for n, a in T.Translator.param_names(fn)}
-            self._inv = {f["name"]: dict(f, sig=sigs[f["name"]]) for f in res}
+                n, pnames, ir = tr.translate(mod, fn, ck, ctor)
+                sig = {nm: a for nm, a in T.Translator.param_names(fn)}
+                # what each annotation claims (asserted on the arguments the factories build, see `check_annotations`)
+                types = {nm: T.annotation_type(prog, mod, a) for nm, a in sig.items() if a is not None}
+                inv[q] = {"name": q, "np": n, "params": pnames, "ir": ir, "diag": list(tr.diag), "sig": sig, "module": mod,
+                          "kind": "constructor" if ctor else ("method" if ck else "function"), "types": types}
+            inv["__plain_fields__"] = [[k[0], k[1], f, t] for (k, f), t in sorted(prog.plain_fields.items())]
+            # the Lean analysis of every regenerated program, once per run (the driver evaluates `Pew.Effects.ana`)
+            d = core.Driver()
+            try:
+                for q, f in inv.items():
+                    if not q.startswith("__"):
+                        f["report"] = d.call("c19.analyse", np=f["np"], prog=f["ir"])
+            finally:
+                d.close()
+            inv = json.loads(json.dumps(inv))  # the same plain-JSON form whether computed or read back
+            if cache is not None:
+                tmp = cache.with_suffix(f".{os.getpid()}.tmp")
+                tmp.write_text(json.dumps(inv))
+                os.replace(tmp, cache)
+            self._inv = inv
         return self._inv
+
+    def funcs(self):
+        return {k: v for k, v in self.inv().items() if not k.startswith("__")}
 
     def extra_evidence(self):
         """the per-(function, parameter) obligations computed by the Lean analysis on the regenerated IR"""
@@ -818,8 +854,8 @@ class C19(Prop):
         try:
             n = ok = pairs = 0
             broken, unknown_calls, unproved, stale = [], [], [], []
-            for name, f in sorted(self.inv().items()):
-                rep = d.call("c19.analyse", np=f["np"], prog=f["ir"])
+            for name, f in sorted(self.funcs().items()):
+                rep = f["report"]
                 w = {f["params"][i] for i in rep["write"]}
                 r = {f["params"][i] for i in rep["ret"]}
                 unknown_calls += [f"{name}: {x}" for x in f["diag"]]
@@ -837,35 +873,60 @@ class C19(Prop):
                     ok += good
                     if not good:
                         broken.append(f"{name}({p})")
-            known = {(name, p) for name, f in self.inv().items() for p in f["params"]}
+            known = {(name, p) for name, f in self.funcs().items() for p in f["params"]}
             stale += [f"{k[0]}({k[1]}): no such function/parameter" for k in sorted(UNPROVED_STATIC) if k not in known]
+            reg_fail = []
+            for cid in REG.all_ids():
+                reg_fail += REG.check(cid, d)
+            nreg = len(REG.all_ids())
         finally:
             d.close()
         return {"obligations": n, "discharged": ok,
-                "coverage": {"inventoried_functions": len(self.inv()), "function_parameter_pairs": pairs,
+                "coverage": {"inventoried_functions": len(self.funcs()), "function_parameter_pairs": pairs,
                              "function_parameter_obligations": n, "obligations_broken": broken[:50],
                              "static_unproved_dynamic_only": unproved, "static_unproved_entries_not_needed": stale,
+                             "translator_regression_cases": f"{nreg}, " + ("all as expected" if not reg_fail
+                                                                            else f"{len(reg_fail)} FAILED"),
+                             "translator_regression_failures": reg_fail[:50],
+                             "allowed_writes": [f"{k[0]}({k[1]}) [{v[0]}]: {v[1]}" for k, v in sorted(ALLOWED_WRITES.items())],
+                             "fields_typed_plain": len(self.inv()["__plain_fields__"]),
                              "translator_unknown_calls": sorted(set(unknown_calls))[:50]}}
 
     def targeted(self, tier):
-        for name in sorted(self.inv()):
+        # the translator's soundness / precision regression cases (harness/effects/tests): a failed one is a broken tie
+        for cid in REG.all_ids():
+            yield {"regress": cid}
+        for name in sorted(self.funcs()):
             yield {"func": name, "aseed": 0}
+        # calls the theorem's start state excludes: two array parameters that are the same object / overlapping views
+        for name, f in sorted(self.funcs().items()):
+            if len(self.array_params(f)) >= 2:
+                for a in range(1, 5 if tier == "quick" else 25):
+                    yield {"func": name, "aseed": a, "overlap": True}
         # the pairs the static half cannot decide rest on the dynamic calls alone: many more of those
-        for name in sorted({k[0] for k in UNPROVED_STATIC} & set(self.inv())):
+        for name in sorted({k[0] for k in UNPROVED_STATIC} & set(self.funcs())):
             for a in range(1, 25 if tier == "quick" else 150):
                 yield {"func": name, "aseed": a}
 
     def generate(self, rng, tier):
-        names = sorted(self.inv())
-        return {"func": rng.choice(names), "aseed": rng.randint(1, 10 ** 6)}
+        names = sorted(self.funcs())
+        name = rng.choice(names)
+        case = {"func": name, "aseed": rng.randint(1, 10 ** 6)}
+        if len(self.array_params(self.funcs()[name])) >= 2 and rng.random() < 0.15:
+            case["overlap"] = True
+        return case
+
+    @staticmethod
+    def array_params(f):
+        return [p for p in f["params"] if (f["sig"].get(p) or "").replace(" ", "") in ("np.ndarray", "np.ndarray|None")]
 
     def search_extra(self, tier):
         """failing-input search: many argument seeds for exactly the functions whose static obligations are broken"""
         d = core.Driver()
         try:
             suspects = []
-            for name, f in sorted(self.inv().items()):
-                rep = d.call("c19.analyse", np=f["np"], prog=f["ir"])
+            for name, f in sorted(self.funcs().items()):
+                rep = f["report"]
                 w = [f["params"][i] for i in rep["write"]]
                 r = [f["params"][i] for i in rep["ret"]]
                 if any((name, p) not in ALLOWED_WRITES and not static_waived(name, p, "write") for p in w) \
@@ -882,16 +943,85 @@ class C19(Prop):
         return None
 
     # ------------------------------------------------------------------
+    def evaluate_regression(self, case, ctx):
+        """one translator regression case: synthetic source -> real translator -> real Lean analysis (+ a real run)"""
+        cid = case["regress"]
+        if cid not in REG.all_ids():
+            return outcome({"absent": True}, {"absent": True}, {"absent": True}, features=[])
+        fails = REG.check(cid, ctx.driver)
+        obs = {"regression_case": cid}
+        return outcome(obs, {"regression_case": cid, "failures": fails}, obs, spec_ok=True, model_ok=not fails,
+                       features=["translator-regression:" + cid.split(".")[0]],
+                       note="; ".join(fails)[:1500])
+
+    @staticmethod
+    def _tup(t):
+        return tuple(C19._tup(x) for x in t) if isinstance(t, list) else t
+
+    def check_annotations(self, f, args):
+        """`annotations are trusted` made checkable: every argument the factories build is what its annotation claims
+        (plain ndarray / scalar / str / Path, builtin container of such, instance of the named pewlib class), and every
+        pewlib object among the arguments holds plain values in the fields the translator typed as plain"""
+        def classes(key):
+            try:
+                return getattr(importlib.import_module(key[0]), key[1])
+            except Exception:
+                return None
+        bad = []
+        for p, v in args.items():
+            t = self._tup(f["types"].get(p))
+            if p == "self" or t is None:
+                continue
+            if not observe.conforms(v, t, classes):
+                bad.append(f"{p}: {type(v).__name__} is not {f['sig'].get(p)}")
+        plain = {}
+        for m, c, fld, t in self.inv()["__plain_fields__"]:
+            plain.setdefault((m, c), []).append((fld, self._tup(t)))
+        _, objs = observe.reachable(list(args.values()))
+        for o in objs.values():
+            key = (type(o).__module__, type(o).__name__)
+            for fld, t in plain.get(key, ()):
+                if fld in getattr(o, "__dict__", {}) and not observe.conforms(vars(o)[fld], t, classes):
+                    bad.append(f"{key[1]}.{fld}: {type(vars(o)[fld]).__name__} is not {t}")
+        return bad
+
+    def make_overlap(self, f, args, mk):
+        """two array arguments of one shape become the same object, or overlapping views of one buffer: what `Start`
+        (distinct parameters are distinct regions) excludes.  Returns the groups of parameter names that overlap."""
+        names = [p for p in self.array_params(f) if isinstance(args.get(p), np.ndarray)]
+        groups = {}
+        for p in names:
+            groups.setdefault((args[p].shape, str(args[p].dtype)), []).append(p)
+        out = []
+        for (shape, dt), ps in sorted(groups.items(), key=lambda kv: kv[1]):
+            if len(ps) < 2 or not shape or args[ps[0]].dtype.hasobject:
+                continue
+            a = args[ps[0]]
+            if mk.rng.random() < 0.5 or a.dtype.names or a.ndim != 1:
+                for q in ps[1:]:
+                    args[q] = a  # the very same object
+            else:
+                n = a.size
+                base = np.concatenate([a, a])
+                args[ps[0]] = base[:n]
+                for i, q in enumerate(ps[1:]):
+                    k = max(1, n // 2)
+                    args[q] = base[k:k + n]  # shares the upper half of the first one's memory
+            out.append(ps)
+        return out
+
     def evaluate(self, case, ctx):
         import random
 
-        inv = self.inv()
+        if "regress" in case:
+            return self.evaluate_regression(case, ctx)
+        inv = self.funcs()
         if case["func"] not in inv:
             # the function no longer exists (inventory is derived from the modules themselves): nothing to observe
             return outcome({"absent": True}, {"absent": True}, {"absent": True}, features=[])
         f = inv[case["func"]]
         name, kind, pnames = f["name"], f["kind"], f["params"]
-        rep = ctx.driver.call("c19.analyse", np=f["np"], prog=f["ir"])
+        rep = f["report"]  # `Pew.Effects.ana` on this function's regenerated IR, evaluated by the driver once per run
         st_w = sorted(pnames[i] for i in rep["write"])
         st_r = sorted(pnames[i] for i in rep["ret"])
         bad_w = [p for p in st_w if (name, p) not in ALLOWED_WRITES and not static_waived(name, p, "write")]
@@ -907,6 +1037,7 @@ class C19(Prop):
         warnings.simplefilter("ignore")
         np.seterr(all="ignore")
         logging.disable(logging.CRITICAL)  # the readers log (and print tracebacks of) the failures they recover from
+        overlaps = []
         try:
             try:
                 args = build_new_args(mk, name, pnames, f["sig"]) if name.startswith(NEW_MODULES) \
@@ -914,7 +1045,13 @@ class C19(Prop):
             except KeyError as e:
                 raise core.InternalError(str(e))
             args = self.paths(name, args, mk, tmp)
+            if case.get("overlap"):
+                overlaps = self.make_overlap(f, args, mk)
+            wrong = self.check_annotations(f, args)
+            if wrong:
+                raise core.InternalError(f"argument factory of {name} contradicts an annotation the translator trusts: {wrong}")
             before = {k: snap(v) for k, v in args.items()}
+            inner = {k: observe.inner_snapshot(v) for k, v in args.items()}
             raised = None
             result = None
             saved_perm = np.random.get_state()
@@ -934,6 +1071,7 @@ class C19(Prop):
                 if old_exec is not None:
                     pcsv.ProcessPoolExecutor = old_exec
             after = {k: snap(v) for k, v in args.items()}
+            inner_changed = sorted(k for k in args if observe.inner_changed(inner[k]))
         finally:
             logging.disable(logging.NOTSET)
             for h in mk.handles:
@@ -941,16 +1079,20 @@ class C19(Prop):
         changed = sorted(k for k in args if before[k] != after[k])
         aliased = []
         if raised is None and result is not None:
-            res_arrays = arrays_of(result)
-            res_conts = containers_of(result)
             for k, v in args.items():
-                arr_hit = any(np.shares_memory(ra, aa) for ra in res_arrays for aa in arrays_of(v) if ra.size and aa.size)
-                cont_hit = any(rc is ac for rc in res_conts for ac in containers_of(v))
-                if arr_hit or cont_hit or (result is v and isinstance(v, (np.ndarray, list, dict))):
+                if observe.shares(result, v):
                     aliased.append(k)
-        bad_changed = [p for p in changed if (name, p) not in ALLOWED_WRITES]
+        # a documented mutator may change its argument in any way; an object-state setter only the attribute bindings of
+        # its receiver, never an array / list / dict that was reachable from any argument when the call started
+        bad_changed = sorted({p for p in changed if not dyn_write_allowed(name, p)}
+                             | {p for p in inner_changed if not dyn_inner_write_allowed(name, p)})
         bad_aliased = [p for p in sorted(aliased) if not alias_allowed(name, p, kind)]
-        unpredicted = [p for p in changed if p not in st_w] + [p for p in aliased if p not in st_r and p in pnames]
+        # the analysis predicts under `Start` (distinct parameters are distinct regions): with overlapping arguments an
+        # effect on one of them is predicted when it is predicted for any member of its overlap group
+        def group(p):
+            return next((g for g in overlaps if p in g), [p])
+        unpredicted = [p for p in changed if not any(q in st_w for q in group(p))] + \
+            [p for p in aliased if p in pnames and not any(q in st_r for q in group(p))]
         impl = {"changed_outside_allowed": bad_changed, "aliased_outside_baseline": bad_aliased,
                 "raised": raised is not None}
         spec = {"changed_outside_allowed": [], "aliased_outside_baseline": [], "raised": raised is not None}
@@ -963,6 +1105,10 @@ class C19(Prop):
             feats.add("documented-mutation-observed")
         if aliased:
             feats.add("alias-observed")
+        if overlaps:
+            feats.add("overlapping-array-arguments")
+        if any(ALLOWED_WRITES.get((name, p), ("",))[0] == "setter" for p in pnames):
+            feats.add("object-state-setter:inner-arrays-checked")
         model_ok = not bad_w and not bad_r and not unpredicted
         note = ""
         if unpredicted:
@@ -1030,6 +1176,8 @@ class C19(Prop):
         return obj(**a)
 
     def shrink(self, case):
+        if "regress" in case:
+            return
         if case["aseed"] != 0:
             yield {**case, "aseed": 0}
 
